@@ -323,14 +323,22 @@ def _output_time(ctx: Ctx, c: Collector) -> None:
             ot = leaf[3] if leaf[2] == ("attr", cur, "time") else leaf[2]
             if a not in (cur, ("attr", sim, "last_step")):
                 pr.append(f"output at the step time gets {T.show(a)} instead of the current tiered step (sub-tiers are lost)")
-            ok_b = (b[0] == "call" and b[1] == T.glob("mosaik.tiered_time.TieredTime") and len(b[2]) == 2 and b[2][0] == ot
-                    and b[2][1][0] == "star" and T.contains(b[2][1], call(T.glob("len"), cur)))
+            from .r08_shape import tiers_shape
+            LEN = call(T.glob("len"), cur)
+            ok_b = b[0] == "call" and b[1] == T.glob("mosaik.tiered_time.TieredTime") and len(b[2]) >= 1 and b[2][0] == ot and not b[3]
+            sh = tiers_shape(b[2][1:], LEN) if ok_b else None
             if not ok_b:
                 pr.append(f"a later output time becomes {T.show(b)[:100]}, not TieredTime(output_time, 0, ..., 0) of the simulator's depth")
-            elif not (T.contains(b[2][1], ("op", "-", call(T.glob("len"), cur), T.const(1)))):
-                pr.append("the zero sub-tiers do not have length len(current_step) - 1")
-            elif not T.contains(b[2][1], ("bag", (("elem", T.const(0), (), ()),), "list")):
+            elif sh is None:
+                if any(x[0] == "const" and isinstance(x[1], int) and x[1] != 0 for a2 in b[2][1:] for x in T.subterms((a2,)) if not (x[0] == "const" and x[1] == 1)) \
+                        or not any(x == T.const(0) for a2 in b[2][1:] for x in T.subterms((a2,))):
+                    pr.append("the sub-tiers of a later output time are not filled with 0")
+                else:
+                    unk = f"sub-tiers {T.show(b)[:100]} of a later output time not understood"
+            elif sh[0]:
                 pr.append("the sub-tiers of a later output time are not filled with 0")
+            elif sh[1] != (1, -1):
+                pr.append("the zero sub-tiers do not have length len(current_step) - 1")
     elif v[0] == "call" and v[1] == T.glob("mosaik.tiered_time.TieredTime"):
         pr.append("the output time never keeps the sub-tiers of the current step (output produced in a same-time loop triggers sub-step 0 again)")
     elif v in (cur, ("attr", sim, "last_step")):
